@@ -18,9 +18,10 @@
      CallExpires expires();  CallGzip  gzip().
 
    The environment's choice is the case (hist): TLC enumerates all of them
-   (Skeletons, then Headers; ExpCases; GzipCases).  Every step emits the lines the instrumented handler emits and
-   runs them through the monitor of CondReqOps; Conforms says the monitor never
-   flags the model.
+   (Part "cond": Skeletons, then Headers; Part "misc": ExpCases and GzipCases).
+   Every step emits the lines the instrumented handler emits and runs them
+   through the monitor of CondReqOps; Conforms says the monitor never flags the
+   model.
 
    Defects is the set of behaviours of the pinned tree that differ from the
    statement; Defects = {} is the intended algorithm (the proposed repairs).
@@ -50,7 +51,7 @@
      Last-Modified, Content-Type ... from a 304).                               *)
 EXTENDS CondReqOps, FiniteSets, TLC
 
-CONSTANTS Part,      \* "cond" | "exp" | "gzip"
+CONSTANTS Part,      \* "cond" | "misc" (expires and gzip)
           Size,      \* "quick" | "thorough"
           Defects
 
@@ -112,17 +113,16 @@ Pick(blk) ==      \* <<If-Match, If-None-Match, If-Modified-Since, If-Unmodified
     [] blk = 7 -> {None3, TS("star", 0, 0), TS("list", 1, 0)} \X {None3, TS("star", 0, 0), TS("list", 1, 0), TS("list", 11, 0)}
                   \X {"none", "equal", "early"} \X {"none", "early", "late"}
 
-ExpCases(sz) ==
+ExpCases ==
   {[part |-> "exp", secs |-> s, force |-> f, proto |-> p, ind |-> i, pragma |-> pr, cc |-> cc, day |-> d] :
      s \in {"zero", "tdzero", "pos", "td"}, f \in BOOLEAN, p \in {10, 11}, i \in {"none", "etag", "lm", "age", "expires"},
      pr \in BOOLEAN, cc \in BOOLEAN, d \in {"normal", "leap"}}
 
-GzipCases(sz) ==
+GzipCases ==
   {[part |-> "gzip", ae |-> a, ct |-> t, body |-> b, vary |-> v, clen |-> l] :
      a \in {"none", "gzip", "xgzip", "brgzip", "gzipq0", "identity", "idgzip", "gzipid", "idq0gzip", "idq0", "deflate", "star"},
      t \in {"html", "plain", "none", "png"}, b \in BOOLEAN, v \in {"none", "other", "ae"}, l \in BOOLEAN}
 
-Cases == CASE Part = "exp" -> ExpCases(Size) [] Part = "gzip" -> GzipCases(Size) [] OTHER -> {}
 
 -----------------------------------------------------------------------------
 (* circuits/web/tools.py validate_etags *)
@@ -257,7 +257,7 @@ Proceed ==
 -----------------------------------------------------------------------------
 (* circuits/web/tools.py expires *)
 CallExpires ==
-  /\ Part = "exp" /\ phase = "handler"
+  /\ ~Cond /\ hist.part = "exp" /\ phase = "handler"
   /\ phase' = "done"
   /\ UNCHANGED <<hist, ret>>
   /\ LET c == hist
@@ -301,7 +301,7 @@ Walk(s, mime, all) ==
        ELSE Walk(Tail(s), mime, all)
 
 CallGzip ==
-  /\ Part = "gzip" /\ phase = "handler"
+  /\ ~Cond /\ hist.part = "gzip" /\ phase = "handler"
   /\ phase' = "done"
   /\ UNCHANGED <<hist, ret>>
   /\ LET c == hist
@@ -315,7 +315,8 @@ CallGzip ==
        [] OTHER -> Emit(<<GresLine(0, "", b0, "none", v0, l0)>>)
 
 -----------------------------------------------------------------------------
-Init == /\ IF Cond THEN hist \in Skeletons /\ phase = "build" ELSE hist \in Cases /\ phase = "handler"
+Init == /\ IF Cond THEN hist \in Skeletons /\ phase = "build"
+           ELSE (hist \in ExpCases \/ hist \in GzipCases) /\ phase = "handler"
         /\ ret = 0 /\ P = P0(hist) /\ bad = "" /\ out = <<>>
 
 Next == Headers \/ CallEtags \/ CallSince \/ CallFile \/ NotModified \/ PreconditionFailed \/ Crash \/ Proceed
